@@ -63,7 +63,9 @@ fn bases(tier: Tier) -> Vec<Base> {
                         for date_kind in 0..3 {
                             for md5_type in [false, true] {
                                 for presigned in [false, true] {
-                                    if presigned && date_kind != 0 {
+                                    // (a presigned URL may be sent along with an x-amz-date header: it is then one more x-amz-
+                                    // header of the canonical block; the date slot still holds Expires)
+                                    if presigned && date_kind == 2 {
                                         continue;
                                     }
                                     if tier == Tier::Quick {
@@ -123,6 +125,9 @@ fn build(b: &Base) -> Req {
     }
     let vhb = b.vh.then_some("bkt");
     if b.presigned {
+        if b.date_kind == 1 {
+            r.headers.push(("x-amz-date".into(), DATE_HDR.as_bytes().to_vec()));
+        }
         let sts = v2_string_to_sign(&r, &EXPIRES.to_string(), vhb).expect("sts");
         let sig = v2_signature(SK, &sts);
         let sep = if r.target.contains('?') { '&' } else { '?' };
